@@ -329,7 +329,8 @@ def structure_problem(case, res):
         return "state-list-not-a-set-of-generated-states"
     if res["n_states"] != nS or res["n_actions"] != nA:
         return "learner-table-size-differs-from-state-list-x-action-list"
-    if res["q_states"] != sl or any(qa != sorted(al) for qa in res["q_actions"]):
+    # (key order of the dicts is not semantic: compared as sets; values are read by label)
+    if sorted(map(repr, res["q_states"])) != sorted(map(repr, sl)) or any(qa != sorted(al) for qa in res["q_actions"]):
         return "q-dict-not-over-state-list-x-action-list"
     if any(x is None or isinstance(x, str) for row in res["Q"] for x in row):
         return "q-value-missing-or-nonfinite"
